@@ -477,9 +477,9 @@ func init() {
 	}
 	bfsCheckT("C08", "netmap-history", func(tier string) func() Driver {
 		if tier == "thorough" {
-			return func() Driver { return NewSnapDriver([]int{0, 1, 2, 3, 4, 5, 6, 7, 8, 9, 10, 11, 12}, 30, 2) }
+			return func() Driver { return NewSnapDriver([]int{0, 1, 2, 3, 4, 5, 6, 7, 8, 9, 10, 11, 12, 255, 256, 257, 266}, 30, 2) }
 		}
-		return func() Driver { return NewSnapDriver([]int{0, 1, 2, 3, 5, 9, 10, 11, 12}, 14, 2) }
+		return func() Driver { return NewSnapDriver([]int{0, 1, 2, 3, 5, 9, 10, 11, 12, 255, 256, 266}, 14, 2) }
 	}, 16, 32, 60, 300, nil)
 	bfsCheck("C09", "balance-locks", func() Driver { return NewBalDriver("C09") }, 5, 8, 120, 1000, nil)
 }
